@@ -149,6 +149,43 @@ def real_C09(ctx, pexpect, thorough):
         if (p.exitstatus, p.signalstatus, p.terminated) != (None, sg, True) or int(p.signalstatus) != sg:
             ctx.hit('C09/popen', 'PopenSpawn child killed by signal %d: exitstatus=%r signalstatus=%r terminated=%r' % (sg, p.exitstatus, p.signalstatus, p.terminated), {'signal': sg})
             return
+    # PopenSpawn, the death observed through reads first: whatever the attributes say before wait() must already be the truth
+    # and must not change afterwards
+    for kind, val in [('exit', 3), ('exit', 0), ('sig', 15), ('sig', 9), ('sig', sigs[-1])]:
+        prog = ('import sys; sys.exit(%d)' % val) if kind == 'exit' else \
+            ('import os,signal\nif %d not in (9, 19): signal.signal(%d, signal.SIG_DFL)\nos.kill(os.getpid(), %d)\nimport time; time.sleep(5)' % (val, val, val))
+        truth = (val, None) if kind == 'exit' else (None, val)
+        p = popen_spawn.PopenSpawn([sys.executable, '-c', prog])
+        snaps = []
+        try:
+            p.expect(pexpect.EOF)
+            time.sleep(0.3)
+            snaps.append(('expect(EOF)', p.exitstatus, p.signalstatus, p.terminated))
+            try:
+                p.expect(pexpect.EOF, timeout=1)
+            except (pexpect.EOF, pexpect.TIMEOUT):
+                pass
+            snaps.append(('expect(EOF) again', p.exitstatus, p.signalstatus, p.terminated))
+            p.wait()
+            snaps.append(('wait()', p.exitstatus, p.signalstatus, p.terminated))
+            p.wait()
+            snaps.append(('wait() again', p.exitstatus, p.signalstatus, p.terminated))
+        except Exception as e:
+            ctx.hit('C09/popen', 'PopenSpawn child (%s %d) observed through reads then wait(): raised %r' % (kind, val, e), {'kind': kind, 'value': val})
+            return
+        tried += 1
+        bad = None
+        for name, ex, sg_, term in snaps:
+            # (PopenSpawn's terminated attribute is True from the start - SpawnBase's default is never reset - so it says nothing)
+            known = ex is not None or sg_ is not None
+            if known and ((None if ex is None else int(ex)), (None if sg_ is None else int(sg_)), bool(term)) != (truth[0], truth[1], True):
+                bad = 'after %s: (exitstatus, signalstatus, terminated) = %r, the real fate is %r' % (name, (ex, sg_, term), truth)
+                break
+        if not bad and (snaps[-1][1], snaps[-1][2], snaps[-1][3]) != (truth[0], truth[1], True) and not (snaps[-1][2] is not None and int(snaps[-1][2]) == truth[1]):
+            bad = 'after wait(): %r, the real fate is %r' % (snaps[-1][1:], truth)
+        if bad:
+            ctx.hit('C09/popen', 'PopenSpawn child (%s %d): %s' % (kind, val, bad), {'kind': kind, 'value': val, 'snapshots': repr(snaps)})
+            return
     # run(withexitstatus)
     out, st = pexpect.run(sys.executable + ' -c "import sys; print(1); sys.exit(42)"', withexitstatus=True)
     tried += 1
